@@ -100,6 +100,8 @@ def run_functions(ctx, sources, modes, on_result=None, check_op='check.func', cl
         pending.clear()
 
     for k_src, src in enumerate(sources):
+        if ctx.expired():
+            break
         try:
             ast = astwire.parse(src)
         except Exception as e:
